@@ -9,7 +9,9 @@ MSG = {
     # characters XML 1.0 cannot carry: the fault still arrives (XML family: with U+FFFD in their place)
     'ctl': 'form\x0cfeed, bell\x07 and \x01',
 }
-SEG = {'uu': 'ü'}
+SEG = {'uu': 'ü', 'cc': 'c\x01c'}
+import re as _re
+_NOT_XML = _re.compile(u'[\x00-\x08\x0b\x0c\x0e-\x1f\ud800-\udfff\ufffe\uffff]')
 LEAF = {'x': 'x', 'v': 'v', 'uni': MSG['uni'], 'zero': '0', 'false': 'False'}
 
 
@@ -19,7 +21,7 @@ def seg(s):
 
 def unseg(s):
     for k, v in SEG.items():
-        if s == v:
+        if s == v or s == _NOT_XML.sub(u'\ufffd', v):          # (the XML family carries U+FFFD in place of what XML cannot carry)
             return k
     return s
 
